@@ -28,3 +28,33 @@ package types
 //@ func AddressFromPubKey
 //@   trusted   -- provisional (C39): program hash of the single-key verification program; a function of the key
 //@   ensures result == addrOfKey(ref(pubkey))
+
+// ---- C02: decoding arbitrary bytes never panics; oversize transactions are refused ----------------------
+//@ func (*Transaction).DeserializationUnsigned
+//@   property C02
+//@   requires tx != nil && source != nil && source.off <= uint64(len(source.s))
+//@   modifies *tx, source.off
+//@   ensures source.off <= uint64(len(source.s))
+//@   ensures result == nil ==> source.off >= old(source.off)
+
+//@ func (*Sig).Deserialize
+//@   property C02
+//@   requires this != nil && source != nil && source.off <= uint64(len(source.s))
+//@   modifies *this, source.off
+//@   ensures source.off <= uint64(len(source.s))
+//@   ensures result == nil ==> source.off >= old(source.off)
+//@   loop 1 invariant 0 <= i && len(sigData) == int(l) && source.off >= old(source.off) && source.off <= uint64(len(source.s))
+//@   loop 2 invariant 0 <= i && len(pubKeys) == int(l) && source.off >= old(source.off) && source.off <= uint64(len(source.s))
+
+//@ func (*Transaction).Deserialization
+//@   property C02
+//@   requires tx != nil && source != nil && source.off <= uint64(len(source.s))
+//@   modifies *tx, source.off
+//@   ensures source.off <= uint64(len(source.s))
+//@   loop 1 invariant 0 <= i && uint64(len(sigs)) == l && source.off >= pos && source.off <= uint64(len(source.s))
+//@   loop 1 modifies fresh
+
+//@ func TransactionFromRawBytes
+//@   property C02
+//@   ensures r1 == nil ==> len(raw) <= MAX_TX_SIZE && r0 != nil
+//@   ensures len(raw) > MAX_TX_SIZE ==> r1 != nil
